@@ -102,7 +102,7 @@ func concurrentCases(run *hx.Run, r *hx.Rng) []hx.Case {
 	}
 	var out []hx.Case
 	for round := 0; round < rounds; round++ {
-		const workers = 8
+		const workers = 4
 		res := make([]hx.Case, workers)
 		jobs := make([]func() hx.Case, workers)
 		for w := 0; w < workers; w++ {
@@ -167,21 +167,7 @@ func ioCases(run *hx.Run, r *hx.Rng) []hx.Case {
 	for _, k := range []string{"dataerr", "pieces", "half"} {
 		out = append(out, bigFileCase(bigFileDesc{N: 2 + r.Intn(3), Seed: seed(), Extra: 1 + r.Intn(60), Note: "reader grid, trailing bytes", readerSpec: readerSpec{Kind: k, RSeed: uint64(r.Intn(1 << 20))}}))
 	}
-	// beyond the reader's chunk of 4096 records
-	bigKinds := []string{"half", "file", "pipe"}
-	if thorough {
-		bigKinds = wholeReaders
-	}
-	for i, k := range bigKinds {
-		run.Count("reader-big:" + k)
-		n := 4097 + r.Intn(100) // the model itself is executed up to 4200 records (Check/C07.v exec_limit) ...
-		if i > 0 {
-			n = 4201 + r.Intn(4000) // ... beyond, its answer comes from the theorems
-		}
-		out = append(out, bigFileCase(bigFileDesc{N: n, Seed: seed(), Note: "reader grid, beyond one chunk", readerSpec: readerSpec{Kind: k, RSeed: uint64(r.Intn(1 << 20))}}))
-	}
-	out = append(out, bigFileCase(bigFileDesc{N: 4201 + r.Intn(100), Seed: seed(), Note: "reader grid, fails inside the second chunk",
-		readerSpec: readerSpec{Kind: "errafter", RSeed: uint64(r.Intn(1 << 20)), FailAt: 84 + 50*4096 + r.Intn(50)}}))
+	// (files beyond the reader's chunk of 4096 records through the reader kinds: the size ladder in bigCases)
 
 	// writers that fail after cap bytes
 	wf := func(d writeFailDesc) {
